@@ -21,6 +21,7 @@ DOC = {
     'R10': 'top-level `match opcode {..}` split into one function per arm plus a generated dispatcher that is itself verified against the shared contract',
     'R11': 'is_some_and(|c| E) -> match on the Option with the closure body inlined',
     'R18': 'for m in &self.mutators { B } -> index loop over the opaque list of registered mutators (vf_mutators_len / vf_mutator_at)',
+    'R20': 'E >= / > / <= / < Version::Vk -> vf_version_{ge,gt,le,lt}(E, Version::Vk): derived PartialOrd of the fieldless enum Version (declaration order)',
     'R19': 'builder methods: `mut self` parameter -> `self` plus `let mut vf_self = self;` with self renamed in the body (Verus rejects `mut self`)',
     'R17': 'alpha-renaming of a local variable whose name is a reserved word inside verus! (int)',
     'R16': 'for _ in 0..N { B } -> let mut vf_i = 0; while vf_i < N { B; vf_i += 1 } (B without continue)',
@@ -230,6 +231,20 @@ def r18(text, args, label):
     return text
 
 
+def r20(text, args, label):
+    """E <cmp> Version::Vk   ->   vf_version_{ge,gt,le,lt}(E, Version::Vk)   for E a path / field expression
+    (derived PartialOrd of the fieldless enum Version = declaration order; Verus has no spec for the derive).
+    All occurrences; no-op when there is none."""
+    m = mask(text)
+    names = {'>=': 'ge', '>': 'gt', '<=': 'le', '<': 'lt'}
+    out, pos = [], 0
+    for mm in re.finditer(r'((?:\*\s*)?[A-Za-z_][\w]*(?:\s*\.\s*[A-Za-z_]\w*)*)\s*(>=|<=|>|<)\s*(Version\s*::\s*V[0-5])\b', m):
+        out.append(text[pos:mm.start()])
+        out.append('vf_version_%s(%s, %s)' % (names[mm.group(2)], text[mm.start(1):mm.end(1)], re.sub(r'\s', '', mm.group(3))))
+        pos = mm.end()
+    return ''.join(out) + text[pos:]
+
+
 def r19(text, args, label):
     """fn f(mut self, ..) -> Self { B }  ->  fn f(self, ..) -> Self { let mut vf_self = self; B[self := vf_self] }
     (a `mut` by-value parameter is a local rebinding; Verus does not accept `mut self`).  The signature half is
@@ -328,7 +343,7 @@ def r14(text, args, label):
     return ''.join(out)
 
 
-RULES = {'R19': r19, 'R4': r4, 'R18': r18, 'R17': r17, 'R16': r16, 'R15': r15, 'R12ALL': r12all, 'R14': r14, 'R1': r1, 'R2': r2, 'R3': r3, 'R11': r11, 'R12': r12}
+RULES = {'R20': r20, 'R19': r19, 'R4': r4, 'R18': r18, 'R17': r17, 'R16': r16, 'R15': r15, 'R12ALL': r12all, 'R14': r14, 'R1': r1, 'R2': r2, 'R3': r3, 'R11': r11, 'R12': r12}
 
 
 def apply(name, text, args, label):
